@@ -28,6 +28,8 @@ HARNESS = {
                'assume': 'len <= 24', 'call': 'check_c14(&buf[..len], 4, elf64, little)', 'unwind': 8},
     'c14_a1': {'args': [('buf', 'u8x24'), ('len', 'usize'), ('elf64', 'bool'), ('little', 'bool')], 'bound': 'note bytes <= 24, alignment 1, first note',
                'assume': 'len <= 24', 'call': 'check_c14(&buf[..len], 1, elf64, little)', 'unwind': 8},
+    'c14_a3': {'args': [('buf', 'u8x24'), ('len', 'usize'), ('elf64', 'bool'), ('little', 'bool')], 'bound': 'note bytes <= 24, alignment 3, first note',
+               'assume': 'len <= 24', 'call': 'check_c14(&buf[..len], 6, elf64, little)', 'unwind': 8},
     'c03_range': {'args': [('off', 'u64'), ('size', 'u64'), ('memsz', 'u64'), ('nobits', 'bool')], 'bound': 'one 60-byte ELF32/LE file; all offsets, sizes, p_memsz', 'assume': 'true',
                   'call': 'check_c03_range(off, size, memsz, nobits)', 'unwind': 9},
     'c13_need': {'args': [('buf', 'u8x40'), ('count', 'u8'), ('little', 'bool')], 'bound': 'a 40-byte section, iteration from offset 0, count < 256: first record + its first auxiliary record + the step',
@@ -193,7 +195,7 @@ PAIRING = [
     (r'^C09\.(get\.|next\.|iter)', lambda m: 'c09'),
     (r'^C10\.(verify_ident|parse_ident|from_ei_data)\.', lambda m: 'c10'),
     (r'^(C12\.sysv_hash|C11\.gnu_hash|proof:hash::sysv_hash|proof:hash::gnu_hash)', lambda m: 'hash'),
-    (r'^C14\.(note|iter)\.', lambda m: ['c14_a4', 'c14_a8']),
+    (r'^C14\.(note|iter)\.', lambda m: ['c14_a4', 'c14_a8', 'c14_a3']),
     (r'^C03\.(section_range|segment_range|section_data|segment_data)\.', lambda m: 'c03_range'),
     (r'^C1[36]\.VerNeedIterator\.next\.', lambda m: 'c13_need'),
     (r'^C1[36]\.VerDefIterator\.next\.', lambda m: 'c13_def'),
@@ -215,8 +217,9 @@ def harness_for(obligation):
 def search_any(obligation, timeout=420):
     """try the paired harnesses in turn; the first failing input that replays wins, otherwise the last result (with all statuses)"""
     last = None; notes = []
-    t_end = time.time() + 2 * timeout          # overall budget for one obligation
-    for h in harnesses_for(obligation):
+    hs_ = harnesses_for(obligation)
+    t_end = time.time() + max(2, len(hs_)) * timeout          # overall budget for one obligation
+    for h in hs_:
         left = t_end - time.time()
         if left < 60: notes.append('%s: skipped (search budget used up)' % h); continue
         r = dict(search(h, timeout=int(min(timeout, left))), harness=h)
